@@ -455,7 +455,7 @@ func checkC11(p *Prog, r *Report) {
 	// ---- D5
 	input := p.FuncOf(p.Method("KCP", "Input"))
 	_ = p.FactsOf(input)
-	recv := p.recvVar(input)
+	recv := p.selfVar(input)
 	var convLocal *types.Var
 	for _, b := range p.CFG(input).live {
 		if ct := p.CFG(input).CondTerm(b); ct != nil && ct.Op == "!=" {
